@@ -71,4 +71,20 @@ def mutants(ctx):
     ]
 
 
-CLAIMED = False
+CLAIMED = True
+MANIFEST = {
+ "engine": "cbmc-src",
+ "text": "Reduced to what a solver can decide about message-path independence: the DELIVERY RELATION. With the real relay, packing and "
+         "receiving code of remote_dep.c / remote_dep_mpi.c (shared with C13) one SAT query per configuration quantifies over every root, "
+         "every family of destination rank sets of the outputs and every rank, and shows that the set {(rank, output): rank receives the "
+         "output's payload} equals the destination sets - for the star, chain and binomial broadcast topologies (3-4 ranks) and for short-message "
+         "limit 0 and default (real remote_dep_mpi_pack_dep) - hence is the same whatever the topology and limit. The check reports the "
+         "one exception it found and a real MPI run confirmed: with chain/binomial a rank whose relay parent does not consume one of its "
+         "outputs never receives it (known finding C05/C13-chain-relay-differing-dests).",
+ "note": "NOT covered (not encodable with this technique): computed values, termination of every process, real datatypes, thread "
+         "interleavings, data-distribution functions - they need several OS processes and the MPI library. Bounds: 3-4 ranks, 2-3 outputs. "
+         "MPI, payload bytes, the generated successor iterator and the root-side gathering are stubs; composition of the per-destination "
+         "obligations into the relation is a manual argument (checked directly by whole-system simulations in the thorough tier).",
+ "technique": "CBMC bounded symbolic execution of the real C units + SAT (cadical), symbolic root / destination sets / ranks, enumerated "
+              "topology, limit and sizes; counterexamples replayed natively and on real MPI",
+}
